@@ -792,10 +792,20 @@ class Interp:
                 self.assign(g.target, self.pm.iter_element(it2, to_term(it2)), e, symbolic_elem=True)
                 conds += [self.truth(self.eval(c)) for c in g.ifs]
             cond = T.and_(*conds) if conds else T.TRUE
+
+            def merged(expr):
+                """the element expression is evaluated per ELEMENT: branches inside functions it calls are merged into one term instead of forking the caller"""
+                if not any(isinstance(x, ast.Call) for x in ast.walk(expr)):
+                    return self.eval(expr)
+                lam = ast.Lambda(args=ast.arguments(posonlyargs=[], args=[], kwonlyargs=[], kw_defaults=[], defaults=[]), body=expr)
+                ast.copy_location(lam, expr)
+                ast.fix_missing_locations(lam)
+                ref = self.eval(lam)
+                return self.call_merged(ref, [], {}, e) if isinstance(ref, FuncRef) else self.eval(expr)
             if kind == "dict":
-                body = ("kv", to_term(self.eval(e.key)), to_term(self.eval(e.value)))
+                body = ("kv", to_term(self.eval(e.key)), to_term(merged(e.value)))
             else:
-                bv = self.eval(e.elt)
+                bv = merged(e.elt)
                 if isinstance(bv, Frame):
                     return [Each(bv, it_t)]
                 body = to_term(bv)
